@@ -24,6 +24,8 @@ func init() {
 		},
 		Assumptions: []string{"effect summaries are type/field based (no alias analysis): a write is attributed to the field's owner type; calls through interfaces other than the listed read-only ones are treated as unknown effects and make the loop undecided unless listed"},
 		Rules: []*core.Rule{
+			{ID: "C06.map-iterators", Floor: 1, Run: c06MapIterators,
+				Doc: "Every call of the iterator helpers maps.Keys, maps.Values and maps.All (standard library and golang.org/x/exp) in the non-test code of pkg/ is consumed directly by slices.Sorted / SortedFunc / SortedStableFunc: these helpers walk a map in Go's randomised order exactly like a range statement, and slices.Collect turns that order into data (the precedence list of the annotation prefixes built that way differs between two starts of the controller). The pinned tree has no such call; the rule exists because the range-statement rule cannot see them."},
 			{ID: "C06.map-ranges", Floor: 48, Run: c06MapRanges,
 				Doc: "E8 classifier over every range-over-map in pkg/converters/... and pkg/haproxy/... (tests and mocks excluded)."},
 			{ID: "C06.lists-sorted", Floor: 6, Run: c06ListsSorted,
@@ -402,6 +404,8 @@ type loopVerdict struct {
 
 // listed exceptions and known order-sensitive loops: key = function name + " over " + ranged expression
 var c06Listed = map[string]loopVerdict{
+	"controller/services.buildLabelSelector over match": {"S", "the joined text is parsed by labels.Parse, which sorts the requirements by key: the selector does not depend on the order of the text"},
+	"controller/legacy.buildLabelSelector over match":   {"S", "the joined text is parsed by labels.Parse, which sorts the requirements by key: the selector does not depend on the order of the text"},
 	"(*converters/ingress.converter).syncPartial over {map[string]*v1.Ingress}":                                     {"S", "the collected ingresses are sorted by sortIngress before use; syncDefaultBackend runs for at most one key (the default-backend pseudo ingress)"},
 	"(*converters/ingress/annotations.Mapper).AddAnnotations over ann":                            {"X", "per-key inserts into the mapper are keyed by the element; the appended conflict list is only rendered in a log line"},
 	"(*haproxy.config).SyncConfig over c.hosts.ItemsAdd()":                                        {"X", "under strict-host a root path is added to each host lacking one: this appends to the default backend's path list, whose positions only number internal path ids"},
@@ -419,12 +423,61 @@ var c06Listed = map[string]loopVerdict{
 	"(*haproxy.dynUpdater).backendUpdated over {map[string]*haproxy.backendPair}":                                          {"X", "conjunction of per-backend results; socket commands of distinct backends are independent"},
 }
 
+// c06MapIterators: the iterator helpers of package maps (Keys, Values, All) walk a map in Go's randomised
+// order like a range statement does; collected into a slice (slices.Collect, slices.AppendSeq) the order
+// becomes data. Accepted only as the direct argument of slices.Sorted / SortedFunc / SortedStableFunc.
+func c06MapIterators(c *core.Ctx) {
+	n := 0
+	for _, fn := range c.SrcFuncs() {
+		pkg := core.PkgOf(fn)
+		if strings.Contains(pkg, "helper_test") || strings.HasPrefix(pkg, "acme/x") {
+			continue
+		}
+		for _, b := range fn.Blocks {
+			for _, in := range b.Instrs {
+				call, ok := in.(*ssa.Call)
+				if !ok {
+					continue
+				}
+				cn := core.CalleeName(&call.Call)
+				base := cn
+				if i := strings.Index(base, "["); i >= 0 {
+					base = base[:i]
+				}
+				if base != "maps.Keys" && base != "maps.Values" && base != "maps.All" && base != "golang.org/x/exp/maps.Keys" && base != "golang.org/x/exp/maps.Values" {
+					continue
+				}
+				n++
+				c.Touch(fn)
+				sorted := call.Referrers() != nil && len(*call.Referrers()) > 0
+				for _, r := range *call.Referrers() {
+					rc, isCall := r.(*ssa.Call)
+					if !isCall {
+						sorted = false
+						continue
+					}
+					rn := core.CalleeName(&rc.Call)
+					if i := strings.Index(rn, "["); i >= 0 {
+						rn = rn[:i]
+					}
+					if rn != "slices.Sorted" && rn != "slices.SortedFunc" && rn != "slices.SortedStableFunc" {
+						sorted = false
+					}
+				}
+				key := core.FuncName(fn) + " iterates " + argText(call.Call.Args[0]) + " with " + base
+				c.Check(sorted, key, c.Pos(call.Pos()), "consumed by slices.Sorted*", "the sequence follows Go's randomised map iteration order and is not sorted before it is used")
+			}
+		}
+	}
+	c.Held("calls of maps.Keys / maps.Values / maps.All examined", "", fmt.Sprintf("%d", n))
+}
+
 func c06MapRanges(c *core.Ctx) {
 	sum := &summarizer{env: c.Env, memo: map[*ssa.Function]*effects{}, busy: map[*ssa.Function]bool{}}
 	n := 0
 	for _, fn := range c.SrcFuncs() {
 		pkg := core.PkgOf(fn)
-		if !(strings.HasPrefix(pkg, "converters") || strings.HasPrefix(pkg, "haproxy")) || strings.Contains(pkg, "helper_test") {
+		if strings.Contains(pkg, "helper_test") || strings.HasPrefix(pkg, "acme/x") {
 			continue
 		}
 		for _, lf := range mapLoops(c.Env, fn) {
